@@ -91,7 +91,7 @@ def verdicts (b : Block) : String × String :=
   let inDepth := limitDepth = 0 || depths.all (· ≤ limitDepth)
   let sm := listAfter b.goLine "searchmoves"
   let inSm := sm.isEmpty || sm.contains best
-  let stoppedEarly := (afterTok b.goLine "stopvisit").isSome || (afterTok b.goLine "stoppoint").isSome
+  let stoppedEarly := (afterTok b.goLine "stopvisit").isSome || (afterTok b.goLine "stoppoint").isSome || (afterTok b.goLine "stopinfo").isSome
   -- mate announcement on the final info line
   let mate :=
     match b.infos.toList.getLast? with
